@@ -23,6 +23,7 @@ def spaces(tier):
             dict(size=1, level=1, cfg='K1', t0=['empty', 'file_d'], mut='outputs'),
             dict(size=2, level=0, cfg='K0', t0=['empty'], mut='outputs', kw=small),
             dict(size=2, level=1, cfg='K0', t0=['file_d'], mut='none', kw=small),
+            dict(family='pairs', size=1, level=0, cfg='K0', t0=['empty'], mut='none'),
         ]
     return [
         dict(size=1, level=l, cfg=c, t0=list(gen.T0S), mut='rel') for l in (0, 1, 2) for c in ('K0', 'K1')
@@ -30,13 +31,14 @@ def spaces(tier):
         dict(size=2, level=l, cfg='K0', t0=['empty', 'dir_d_j', 'full', 'file_d'], mut='outputs') for l in (0, 1)
     ] + [
         dict(family='chain3', size=3, level=0, cfg='K0', t0=['empty', 'file_d'], mut='outputs'),
+        dict(family='pairs', size=1, level=0, cfg='K0', t0=['empty', 'full', 'dir_d_j'], mut='none'),
     ]
 
 
 def tasks(tier, seed):
     out = []
     for si, sp in enumerate(spaces(tier)):
-        n = 16 if sp['size'] == 1 else 64
+        n = 16 if (sp['size'] == 1 and sp.get('family') != 'pairs') else 64
         for i in range(n):
             out.append({'tier': tier, 'space': si, 'slice': [i, n]})
     return out
@@ -105,6 +107,26 @@ def work(ctx, task):
     world = World(ctx.sb, ctx.fb, sp['cfg'])
     full = mutation_alphabet()
     capped = False
+    if sp.get('family') == 'pairs':
+        # file <-> directory swaps between two builds (reaches _make_room and its rmdir)
+        from .c02 import pair_programs
+        for pi, (P, Q) in enumerate(pair_programs(sp['level'])):
+            if pi % n != i:
+                continue
+            if ctx.deadline and time.time() > ctx.deadline:
+                capped = True
+                break
+            acc.count('programs')
+            for t0 in sp['t0']:
+                world.start()
+                for m in gen.T0S[t0]:
+                    world.mutate(m)
+                world.build(P)
+                if world.diverged:
+                    continue
+                acc.count('histories')
+                fault_sweep(world, acc, Q, 'pair')
+        return acc.result(world, capped)
     for pi, prog in enumerate(gen.family(sp)):
         if pi % n != i:
             continue
